@@ -158,6 +158,13 @@ def sec_lattice(rep, tier):
                 for p in (1, 2, -1, -2):
                     fe.setdefault(p, f[p])
                 out.append((f"kernel{i}:{type(k.coeff).__module__.split('.')[-2]}.{type(k.coeff).__name__}/rotated-exactly-once", contraction(k.partons, fe), contraction(old[i], mixed(sy, fe))))
+            # history: a second collection (same configuration object) hands out the same weights as the
+            # first one did before its in-place rotation (no weight dictionary survives between calls)
+            ks2, _ = H.collect(sy, cfg, c["kind"], c["flavor"], c["nf"], what="collect")
+            out.append(("second collection: same number of kernels", len(ks2), len(ks)))
+            for i, (k2, o1) in enumerate(zip(ks2, old)):
+                for p in sorted(set(k2.partons) | set(o1)):
+                    out.append((f"second collection: kernel{i}[{p}] unaffected by the earlier rotation", k2.partons.get(p, 0), o1.get(p, 0)))
             return out
 
         sub.check(f"C12/collect+apply_isospin/{name}", case, sy, pre)
@@ -205,6 +212,20 @@ def sec_collect_elems(rep):
     ok = r == "dropped" and log == ["collect", ("iso", [k1, k2, k3], 0.3, 1.7), ("drop", [k1, k2, k3])]
     rep.cases += 1
     rep.add(ob_eval("C12/collect_elems/post(collect -> isospin(Z,A of target) -> drop_empty)", ok, detail=str(log)[:300]))
+    # Z and A are taken by name: the order of the entries of the target mapping is irrelevant
+    for tname, tgt in (("A-first", {"A": 1.7, "Z": 0.3}), ("extra-key-first", {"id": "x", "A": 1.7, "Z": 0.3}), ("Z-first", {"Z": 0.3, "A": 1.7})):
+        del log[:]
+        c = Comb()
+        c.target = tgt
+        try:
+            c.collect_elems()
+            got = [e for e in log if isinstance(e, tuple) and e[0] == "iso"]
+            ok = len(got) == 1 and got[0][2:] == (0.3, 1.7)
+            detail = str(got)[:200]
+        except Exception as e:  # noqa
+            ok, detail = False, f"{type(e).__name__}: {e}"
+        rep.cases += 1
+        rep.add(ob_eval(f"C12/collect_elems/target mapping read by name/{tname}", ok, detail=detail, inputs={} if ok else {"target": str(tgt), "apply_isospin called with": detail}, replay={"confirmed": True}))
 
     class E(EmptyPartonicChannel):
         def __init__(self):
